@@ -50,10 +50,8 @@ pub fn respelled_keys(k: &PublicKey) -> Vec<Value> {
     }
     materials.push(crate::proto::hex(k.as_bytes()));
     let own = kj["keyval"]["public"].as_str().unwrap_or("").to_string();
+    materials.push(own.clone());
     for m in materials {
-        if m == own {
-            continue;
-        }
         for algs in [None, Some(json!(["sha256", "sha512"])), Some(json!(["sha512"]))] {
             let mut v = kj.clone();
             v["keyval"]["public"] = Value::String(m.clone());
@@ -100,6 +98,21 @@ pub fn key_case(sink: &mut Sink, doc: &Value, class: &str) {
                 // (a `null` member is an absent one)
                 sink.oracle(written.get(m) == doc.get(m).filter(|x| !x.is_null()), &format!("a key read from a description has another `{}` than the description gives (its id is that of another description)", m), &op);
             }
+            // the id is the SHA-256 of the reference canonical form of the description: type, scheme,
+            // hash-algorithm list (if any) and public key material - recomputed here without the crate
+            {
+                let mut shim = serde_json::Map::new();
+                for m in ["keytype", "scheme", "keyid_hash_algorithms"] {
+                    if let Some(x) = written.get(m) {
+                        shim.insert(m.to_string(), x.clone());
+                    }
+                }
+                shim.insert("keyval".into(), json!({"public": written["keyval"]["public"].clone()}));
+                if let Some(bytes) = crate::olpc::olpc(&Value::Object(shim)) {
+                    let want = crate::proto::hex(ring::digest::digest(&ring::digest::SHA256, &bytes).as_ref());
+                    sink.oracle(id.as_str() == Some(want.as_str()), "a key's id is not the SHA-256 of the canonical description of its type, scheme, hash-algorithm list and material", &op);
+                }
+            }
             match serde_json::from_value::<PublicKey>(written.clone()) {
                 Ok(k2) => sink.oracle(k2 == k && k2.key_id() == k.key_id(), "a key changes (or changes its id) when written and read again", &op),
                 Err(_) => sink.oracle(false, "the description written for an accepted key is rejected", &op),
@@ -133,9 +146,47 @@ fn answer<T: Serialize + DeserializeOwned + PartialEq + 'static>(sink: &mut Sink
                     }
                     Err(_) => sink.oracle(false, "an accepted document is rejected after being written again", op),
                 }
+                // what was read is what the document says: the artifact paths and rule patterns written
+                // again are those of the document, character for character
+                let (mut a, mut b) = (vec![], vec![]);
+                path_strings(doc, false, false, &mut a);
+                path_strings(&j, false, false, &mut b);
+                a.sort();
+                a.dedup();
+                b.sort();
+                b.dedup();
+                // (a reader may leave members aside - the union of a layout's and a link's members reads as
+                // a layout -, but it does not invent or respell any)
+                sink.oracle(b.iter().all(|x| a.contains(x)), "a document read and written again names an artifact path or rule pattern that the document does not", op);
                 format!("ok {}", proto(&j, &mut None))
             }
         },
+    }
+}
+
+/// artifact paths (member names under `materials` / `products`) and rule patterns (second string of
+/// the arrays under `expected_materials` / `expected_products`) of a document
+fn path_strings(v: &Value, under_arts: bool, in_rules: bool, out: &mut Vec<String>) {
+    match v {
+        Value::Object(m) => {
+            for (k, x) in m {
+                if under_arts {
+                    out.push(format!("artifact {}", k));
+                }
+                path_strings(x, k == "materials" || k == "products", k == "expected_materials" || k == "expected_products", out);
+            }
+        }
+        Value::Array(xs) => {
+            for x in xs {
+                if in_rules {
+                    if let Some(Value::String(p)) = x.as_array().and_then(|t| t.get(1)) {
+                        out.push(format!("pattern {}", p));
+                    }
+                }
+                path_strings(x, false, false, out);
+            }
+        }
+        _ => {}
     }
 }
 
@@ -349,6 +400,60 @@ const EXPIRES: &[&str] = &[
     "2030-01-01T00:00:00-00:00", "0000-01-01T00:00:00Z",
 ];
 
+/// the document with a backslash in one of its artifact paths or rule patterns (a member name under
+/// `materials` / `products`, a string of a rule array): `\` is an ordinary character of a path - a
+/// file `dist\out` is not the file `dist/out` - and has to survive as it is
+pub fn backslash_path(doc: &Value, r: &mut Rng) -> Option<Value> {
+    fn go(v: &mut Value, under_arts: bool, in_rules: bool, r: &mut Rng, done: &mut bool) {
+        match v {
+            Value::Object(m) => {
+                if under_arts && !m.is_empty() && !*done && r.chance(1, 2) {
+                    let keys: Vec<String> = m.keys().cloned().collect();
+                    let k = r.pick(&keys).clone();
+                    let nk = if k.contains('/') && r.chance(1, 2) { k.replace('/', "\\") } else { format!("dist\\{}", k) };
+                    if !m.contains_key(&nk) {
+                        let x = m.remove(&k).unwrap();
+                        m.insert(nk, x.clone());
+                        // sometimes both spellings side by side
+                        if r.chance(1, 3) {
+                            m.insert(k, x);
+                        }
+                        *done = true;
+                    }
+                }
+                for (k, x) in m.iter_mut() {
+                    let arts = k == "materials" || k == "products";
+                    let rules = k == "expected_materials" || k == "expected_products";
+                    go(x, arts, rules, r, done);
+                }
+            }
+            Value::Array(xs) => {
+                if in_rules && !*done {
+                    // a rule is an array of strings: keyword, pattern, ...
+                    for x in xs.iter_mut() {
+                        if let Value::Array(toks) = x {
+                            if toks.len() >= 2 && !*done && r.chance(1, 2) {
+                                if let Some(Value::String(p)) = toks.get_mut(1) {
+                                    *p = if p.contains('/') { p.replace('/', "\\") } else { format!("dist\\{}", p) };
+                                    *done = true;
+                                }
+                            }
+                        }
+                    }
+                }
+                for x in xs.iter_mut() {
+                    go(x, false, false, r, done);
+                }
+            }
+            _ => {}
+        }
+    }
+    let mut d = doc.clone();
+    let mut done = false;
+    go(&mut d, false, false, r, &mut done);
+    if done { Some(d) } else { None }
+}
+
 /// one mutation of a valid document
 pub fn mutate(doc: &Value, r: &mut Rng) -> Value {
     let mut d = doc.clone();
@@ -530,6 +635,10 @@ pub fn run_docs(sink: &mut Sink, r: &mut Rng, pool: &[KeyInfo], n: usize) {
         docs.push(("link", serde_json::to_value(&layout).unwrap()));
         for (kind, d) in &docs {
             doc_case(sink, kind, d, "valid");
+            if let Some(b) = backslash_path(d, r) {
+                doc_case(sink, kind, &b, "backslash");
+                doc_text_case(sink, kind, &b, "backslash");
+            }
             doc_text_case(sink, kind, d, "valid");
             write_text_case(sink, d);
             for _ in 0..3 {
